@@ -777,6 +777,65 @@ def _step_slices(tier):
     return out
 
 
+def late_reset_wakeup(sl):
+    """Outside test mode the driver arms a wake-up after every element (to reset the relative time of the metrics store when the next element
+    starts). Wake-ups may be late by any amount: whenever this one is delivered - also after the race has completed - race control sees exactly
+    one BenchmarkComplete and no failure after it."""
+    n_tasks = sl["tasks"]
+    schedule = [track.Task("t%d" % i, track.Operation("op%d" % i, "bulk"), clients=1, warmup_iterations=0, iterations=1) for i in range(n_tasks)]
+    s = actors.build_driver(schedule, cores=1, cfg_values={("track", "test.mode.enabled"): False})
+    marker = driver.DriverActor.RESET_RELATIVE_TIME_MARKER
+
+    def is_reset(ev):
+        return ev[0] == "timer" and s.timers[ev[1]][0] == s.da_key and getattr(s.timers[ev[1]][1], "payload", None) == marker
+
+    steps = 0
+    release_after = None
+
+    class SteppingClock:
+        """every look at the clock finds it two seconds later: start times the driver hands out are always reached at the next wake-up"""
+        now = [1000.0]
+
+        @classmethod
+        def perf_counter(cls):
+            cls.now[0] += 2.0
+            return cls.now[0]
+
+        time = perf_counter
+
+    with shadowed(driver, (), extra={"time": SteppingClock}):
+        steps, release_after = _run_with_late_resets(s, is_reset, steps, release_after)
+    to_rc = [type(m).__name__ for (a, b, m) in s.sent if b == s.rc_key]
+    core.trace("events", steps)
+    core.note("messages to race control", to_rc)
+    observe("the race comes to an end", steps < 400 and "BenchmarkComplete" in to_rc)
+    observe("completion is reported exactly once", to_rc.count("BenchmarkComplete") == 1)
+    observe("no failure is reported for a race that ran without any fault (however late the reset wake-up is)", "BenchmarkFailure" not in to_rc)
+    observe("one TaskFinished per element before the completion", to_rc[:-1].count("TaskFinished") == n_tasks or to_rc.count("TaskFinished") == n_tasks)
+
+
+def _run_with_late_resets(s, is_reset, steps, release_after):
+    while steps < 400:
+        ev = s.enabled()
+        resets = [e for e in ev if is_reset(e)]
+        # messages first, then runs that can finish, then the periodic wake-ups (which would otherwise starve everything else)
+        others = sorted([e for e in ev if not is_reset(e)], key=lambda e: {"msg": 0, "fin": 1, "timer": 2}[e[0]])
+        if resets and release_after is None:
+            # the solver picks how late the wake-up is: after 0..12 further events, or only when nothing else is left to happen
+            release_after = steps + core.choose(14, "reset_wakeup_late_by_events")
+            if release_after == steps + 13:
+                release_after = 10 ** 9
+        if resets and (steps >= (release_after or 0) or not others):
+            s.fire(resets[0])
+            release_after = None
+        elif others:
+            s.fire(others[0])
+        else:
+            break
+        steps += 1
+    return steps, release_after
+
+
 def adapter_completion_seam(sl):
     """Contract (3) of the modelled executor run (DESIGN 2.2), checked on the real AsyncIoAdapter.run: a worker that hosts ANY subset of the
     clients of the completed-by task (the other clients may live on other workers) sets `complete` when its own clients of that task have
@@ -895,6 +954,11 @@ HARNESSES.append(Harness("executor_seam", c04.completion_seam, "symbolic",
                          lambda tier: [{"completes": c, "any": a} for (c, a) in ((False, False), (True, False), (False, True))],
                          reads=[driver.AsyncExecutor.__call__], stubs=c04.STUBS, real_valued=True,
                          doc="assume/guarantee seam: the real AsyncExecutor honours the executor contract used by the actor harnesses (shared with C04)"))
+HARNESSES.append(Harness("late_reset_wakeup", late_reset_wakeup, "bounded-exhaustive", lambda tier: [{"tasks": 1}, {"tasks": 2}],
+                         reads=[driver.DriverActor.receiveMsg_WakeupMessage, driver.DriverActor.on_task_finished, driver.Driver.reset_relative_time, driver.Driver.move_to_next_task],
+                         stubs=["fake actor runtime, modelled executor runs, metrics store / telemetry stubs (as in closed_runs); NOT in test mode: elements start one second after the barrier"],
+                         bounds={"elements": "1..2 single-client tasks", "lateness of each reset wake-up": "0..12 further events or until nothing else can happen"},
+                         doc="a late 'reset relative time' wake-up never turns a completed race into a failed one"))
 HARNESSES.append(Harness("adapter_completion_seam", adapter_completion_seam, "bounded-exhaustive", lambda tier: [{}],
                          reads=[actors.REAL["AsyncIoAdapter"].run, driver.AsyncExecutor.__call__],
                          stubs=["EsClientFactory, track.operation_parameters, runner registry (stub runner yielding to the event loop once per request)"],
